@@ -111,10 +111,17 @@ def cell_from_recip_metric(m, c):
     return [a, b, cc, al, be, ga]
 
 
-def bounds(K, Kmin, c):
-    """float sintl bounds at half-integers: never on a lattice point"""
-    smax = math.sqrt(c * (K + 0.5) / 4.0)
-    smin = math.sqrt(c * (Kmin + 0.5) / 4.0) if Kmin > 0 else 0.0
+def bounds(K, Kmin, c, tight=0):
+    """float sintl bounds for the shell Kmin < Q* <= K.  tight = 0: at half-integers of Q*.  tight = 1..4: 1e-7 (relative, in
+    sin(theta)/lambda) away from an occupied shell - still a hundred times the distance the property's quantifier asks for:
+      1: lower bound just ABOVE the shell Q* = Kmin (it stays out)     2: lower bound just BELOW the shell Q* = Kmin + 1 (it stays in)
+      3: upper bound just ABOVE the shell Q* = K (it stays in)         4: upper bound just BELOW the shell Q* = K + 1 (it stays out)
+    The set of reflections is the same in all five cases."""
+    e = 2e-7
+    qmax = {3: K * (1 + e), 4: (K + 1) * (1 - e)}.get(tight, K + 0.5)
+    qmin = {1: Kmin * (1 + e), 2: (Kmin + 1) * (1 - e)}.get(tight, Kmin + 0.5)
+    smax = math.sqrt(c * qmax / 4.0)
+    smin = math.sqrt(c * qmin / 4.0) if Kmin > 0 else (0.0 if tight != 2 else math.sqrt(c * (1 - e) / 4.0))
     return smin, smax
 
 
@@ -191,6 +198,15 @@ def call_gen(a):
                 getattr(mod, func)([x * 1.0000001 if j < 3 else x for j, x in enumerate(list(cell))], smin, smax, output_stl=ostl, **kw)
             elif pre == 5 and "sgno" in kw:
                 getattr(mod, func)(cell, smin, 0.5 * smax, output_stl=ostl, sgno=1)
+            elif pre == 0 and npseed % 2 == 1:
+                # the caller's cell OBJECT is reused: first it holds a slightly different cell, then it is updated in place to the real
+                # one (a refinement loop does exactly this) - what was derived from the object before must not be reused
+                real = [float(x) for x in cell]
+                for j in range(3):
+                    cell[j] = real[j] * 1.013
+                getattr(mod, func)(cell, smin, smax, output_stl=ostl, **kw)
+                for j in range(6):
+                    cell[j] = real[j]
         except Exception:
             pass
         # the generator may return ANY numbers: every few calls the projection vector drawn for the de-duplication has two components
